@@ -119,7 +119,8 @@ def is_enc_switch(tok: bytes) -> bool:
     if len(tok) < 2 or tok[:1] not in (b"-", b"/"):
         return False
     w = tok[1:].lower()
-    return ENC_WORD.startswith(w) and len(w) >= 1
+    # any prefix of "encodedcommand", or powershell's documented alias -ec (the pattern spells it out: e(?:c|n...))
+    return (ENC_WORD.startswith(w) and len(w) >= 1) or w == b"ec"
 
 
 def check_ps_hits(data: bytes, hits, report, counts):
